@@ -34,12 +34,16 @@ RULE = ("structured generator: 1-8 users x 1-8 items (some without ratings), ide
         "for users and items; special values 0, '', negative, 2^31, 2^53+1, 2^63-1, strings whose order differs from their numeric order; the logical "
         "order is unrelated to the identifier order; unknown identifiers may be the falsy ones), dataset assembly as a generated dimension "
         "(from_interactions_df, or DatasetBuilder with entities declared in several batches / inserted by 1-3 interaction batches / added last, so "
-        "the vocabularies are in arrival order), ratings in half steps, timestamp representation as a "
+        "the vocabularies are in arrival order), rating value domain as a generated dimension (0.5-5 stars, a scale from 0 with frequent "
+        "exact zeros, like/dislike 1/0, mean-centred values with negatives; a user or item whose ratings are all 0; histories on the same scale), "
+        "timestamp representation as a "
         "generated dimension (integer seconds, float seconds, datetime64[s|ms|us|ns] tz-naive or tz-aware in UTC / America/Denver / Asia/Kolkata, "
         "or no timestamps), datasets built with DatasetBuilder or from_interactions_df, damping scalar, per-entity dict (possibly missing a key) or (user, item) "
         "tuple with values in {0, 1/2, 5, ...}, every subset of {user, item}, 2-5 queries (known / unknown / no user, rated history with "
-        "unknown items, empty history, history without ratings; given as RecQuery, bare identifier, NumPy scalar, item list or None; item lists by "
-        "identifier or by number), all three popularity variants scored for a probe list and for the whole catalogue, 3 cutoffs before/inside/after the data; "
+        "unknown items, empty history, history without ratings; given as RecQuery, bare identifier, NumPy scalar, item list or None; item lists "
+        "(scored items, histories, popularity probes) by identifier, by number with the dataset's vocabulary, or by number with a vocabulary of "
+        "their own: same length as the training vocabulary with other members / another order, permuted, superset, shorter, longer), all three "
+        "popularity variants of PopScorer and TimeBoundedPopScore scored for a probe list and for the whole catalogue, 3 cutoffs before/inside/after the data; "
         "edge stream: single rating, constant ratings, one user or one item.  non-trivial = at least 3 ratings with 2 distinct values, "
         "2 distinct item counts and a query with a rated history; distinct = by hash of the case")
 
@@ -86,8 +90,68 @@ def gen_identifiers(rng, nu, ni):
         unknown = gen_ids(rng, kind, 3, avoid=known, prefix=pre)
         if FALSY[kind] not in known and FALSY[kind] not in unknown and rng.chance(1, 2):
             unknown[0] = FALSY[kind]
-        ids[ent] = (kind, known, unknown)
+        # further identifiers unknown to the dataset that only ever occur inside the vocabulary of an item list
+        extra = gen_ids(rng, kind, 4, avoid=known + unknown, prefix=pre)
+        ids[ent] = (kind, known, unknown, extra)
     return ids
+
+
+SCALES = [("half-stars", 4), ("zero-based", 3), ("binary", 2), ("centred", 3)]
+
+
+def gen_rating(rng, scale):
+    """one rating value of the dataset's scale: 0.5-5 stars, a scale that starts at 0 (the stored value 0 is frequent),
+    like / dislike as 1 / 0, or mean-centred values (negative, zero, positive)"""
+    if scale == "zero-based":
+        return Fraction(0) if rng.chance(1, 3) else Fraction(rng.randint(0, 10), 2)
+    if scale == "binary":
+        return Fraction(rng.below(2))
+    if scale == "centred":
+        return Fraction(rng.randint(-5, 5), 2)
+    return Fraction(rng.randint(1, 10), 2)
+
+
+FOREIGN_FILL = ["x0", "x1", "x2", "y0", "y1", "y2", "y3"]
+
+
+def gen_fvocab(rng, ni, listed):
+    """the vocabulary an item list carries when it is not the dataset's: the listed items plus others, in an order of its own.
+    same-length = as many entries as the training vocabulary (another split / catalogue slice of equal size), permuted = the
+    training items in another order, superset, shorter, longer.  Entries are logical item indexes, "x<k>" (the unknown
+    identifiers the lists use) or "y<k>" (identifiers that occur nowhere else)."""
+    needed = []
+    for x in listed:
+        if x not in needed:
+            needed.append(x)
+    known = list(range(ni))
+    pool = [x for x in known + FOREIGN_FILL if x not in needed]
+    kind = rng.weighted([("same-length", 5), ("permuted", 2), ("superset", 2), ("shorter", 1), ("longer", 1)])
+    if kind == "permuted" and (ni < 2 or any(isinstance(x, str) for x in needed)):
+        kind = "same-length"
+    if kind == "same-length" and len(needed) > ni:
+        kind = "longer"
+    if kind == "shorter" and max(1, len(needed)) >= ni:
+        kind = "longer"
+    if kind == "permuted":
+        vocab = rng.shuffle(known)
+        if vocab == known:
+            vocab = vocab[1:] + vocab[:1]
+    elif kind == "superset":
+        vocab = rng.shuffle(known + FOREIGN_FILL[:3] + FOREIGN_FILL[3:][:rng.randint(0, 4)])
+    else:
+        if kind == "same-length":
+            size = ni
+        elif kind == "shorter":
+            size = rng.randint(max(1, len(needed)), ni - 1)
+        else:
+            size = max(ni, len(needed)) + rng.randint(1, 3)
+        vocab = rng.shuffle(needed + rng.sample(pool, size - len(needed)))
+    return {"kind": kind, "vocab": vocab}
+
+
+def gen_by_number(rng, ni, listed, weights):
+    how = rng.weighted(weights)
+    return gen_fvocab(rng, ni, listed) if how == "foreign" else how
 
 
 def gen_assembly(rng, nu, ni):
@@ -144,14 +208,21 @@ def gen_case(rng, edge=False):
         for i in range(ni):
             if not any(c[1] == i for c in chosen):
                 chosen.append((rng.below(nu), i))
-    const = fjson(Fraction(rng.randint(1, 10), 2))
+    scale = rng.weighted(SCALES)
+    const = fjson(gen_rating(rng, scale))
     base = rng.choice([0, 1_600_000_000])
     idents = gen_identifiers(rng.fork("ids"), nu, ni)
     assembly = gen_assembly(rng.fork("assembly"), nu, ni)
     ratings = []
     for u, i in rng.shuffle(chosen):
-        r = const if style == "constant" else fjson(Fraction(rng.randint(1, 10), 2))
+        r = const if style == "constant" else fjson(gen_rating(rng, scale))
         ratings.append([u, i, r, base + rng.randint(1, 12) * 100, rng.below(2), rng.below(assembly["nbatch"])])
+    if scale != "half-stars" and rng.chance(1, 3):
+        # a user or an item all of whose stored ratings are exactly 0
+        col, who = rng.choice([(0, rng.below(nu)), (1, rng.below(ni))])
+        for r in ratings:
+            if r[col] == who:
+                r[2] = fjson(Fraction(0))
     form = rng.weighted([("scalar", 4), ("dict", 4), ("tuple", 2)])
     if form == "scalar":
         d = rng.choice(DAMPS)
@@ -175,7 +246,7 @@ def gen_case(rng, edge=False):
             hitems = []
             if hk != "empty":
                 ids = rng.sample(list(range(ni)), rng.randint(0, min(ni, 4))) + [f"x{k}" for k in rng.subset(range(3), 1, 3)]
-                hitems = [[x, fjson(Fraction(rng.randint(1, 10), 2))] for x in rng.shuffle(ids)]
+                hitems = [[x, fjson(gen_rating(rng, scale))] for x in rng.shuffle(ids)]
             hist = {"rated": hk != "unrated", "items": hitems}
         items = rng.sample(list(range(ni)), rng.randint(0, ni)) + [f"x{k}" for k in rng.subset(range(3), 1, 3)]
         if rng.chance(1, 6) and items:
@@ -184,8 +255,11 @@ def gen_case(rng, edge=False):
             form = rng.weighted([("recquery", 2), ("bare", 3), ("np-scalar", 1)]) if user is not None else rng.choice(["recquery", "none"])
         else:
             form = "recquery" if user is not None else rng.choice(["recquery", "itemlist"])
-        queries.append({"user": user, "hist": hist, "items": rng.shuffle(items), "form": form,
-                        "by_number": [rng.weighted([(None, 5), ("dataset", 2), ("foreign", 2)]) for _ in range(2)]})
+        items = rng.shuffle(items)
+        weights = [(None, 4), ("dataset", 2), ("foreign", 4)]
+        queries.append({"user": user, "hist": hist, "items": items, "form": form,
+                        "by_number": [gen_by_number(rng, ni, items, weights),
+                                      gen_by_number(rng, ni, [x for x, _ in hist["items"]] if hist else [], weights)]})
     trep = rng.weighted([("int", 3), ("float", 2), ("date", 10), ("none", 1)])
     unit = rng.choice(["s", "ms", "us", "ns"])
     tz = rng.weighted([(None, 3), ("UTC", 2), ("America/Denver", 1), ("Asia/Kolkata", 1)])
@@ -197,11 +271,12 @@ def gen_case(rng, edge=False):
     cutoffs = [fjson(Fraction(2 * c + rng.weighted([(0, 3), (1, 1)]), 2)) for c in rng.sample(cut, 3)]
     pop_items = rng.shuffle(rng.sample(list(range(ni)), rng.randint(0, ni)) + [f"x{k}" for k in rng.subset(range(3), 1, 2)])
     return {"ukind": idents["u"][0], "uids": idents["u"][1], "unk_uids": idents["u"][2],
-            "ikind": idents["i"][0], "iids": idents["i"][1], "unk_iids": idents["i"][2], "assembly": assembly,
+            "ikind": idents["i"][0], "iids": idents["i"][1], "unk_iids": idents["i"][2], "extra_iids": idents["i"][3],
+            "assembly": assembly, "scale": scale,
             "nu": nu, "ni": ni, "ratings": ratings, "damping": damping,
             "entities": entities, "path": path, "queries": queries, "trep": trep, "unit": unit, "tz": tz,
             "build": build, "cutoffs": cutoffs, "pop_items": pop_items, "style": style,
-            "pop_by_number": rng.weighted([(None, 3), ("dataset", 1), ("foreign", 2)])}
+            "pop_by_number": gen_by_number(rng, ni, pop_items, [(None, 2), ("dataset", 1), ("foreign", 4)])}
 
 
 def gen_cases(rng, tier):
@@ -237,9 +312,31 @@ def uid(case, u):
 
 
 def iid(case, i):
-    if isinstance(i, str):          # "x<k>": not in the vocabulary
-        return case["unk_iids"][int(i[1:])]
+    if isinstance(i, str):          # "x<k>": not in the vocabulary; "y<k>": only ever inside a list's own vocabulary
+        return (case["extra_iids"] if i[0] == "y" else case["unk_iids"])[int(i[1:])]
     return case["iids"][i]
+
+
+def list_vocab(case, items, by_number):
+    """the vocabulary an item list carries: None (given by identifier), "dataset", or the entries of a vocabulary of its own"""
+    if by_number == "dataset":
+        return None if any(isinstance(x, str) for x in items) else "dataset"
+    if by_number == "foreign":      # earlier form: everything, reversed
+        return (list(range(case["ni"])) + ["x0", "x1", "x2"])[::-1]
+    if isinstance(by_number, dict):
+        return by_number["vocab"]
+    return None
+
+
+def vocab_label(case, items, by_number):
+    lv = list_vocab(case, items, by_number)
+    if lv is None:
+        return "given by identifier"
+    if lv == "dataset":
+        return "numbered with the dataset's vocabulary"
+    kind = by_number["kind"] if isinstance(by_number, dict) else "superset"
+    return (f"numbered with a vocabulary of its own ({kind}, {len(lv)} entries, training vocabulary has {case['ni']}): "
+            f"{[iid(case, x) for x in lv]!r}")
 
 
 def _num(x):
@@ -265,10 +362,11 @@ def _ilist(case, items, ratings=None, by_number=None, ds=None):
     if ratings is not None:
         fields["rating"] = np.array([float(fparse(r)) for r in ratings], dtype=np.float64)
     vocabulary = None
-    if by_number == "dataset" and not any(isinstance(x, str) for x in items):
+    lv = list_vocab(case, items, by_number)
+    if lv == "dataset":
         vocabulary = ds.items
-    elif by_number == "foreign":
-        vocabulary = Vocabulary(_id_array(case["ikind"], (case["iids"] + case["unk_iids"])[::-1]), "item", reorder=False)
+    elif lv is not None:
+        vocabulary = Vocabulary(_id_array(case["ikind"], [iid(case, x) for x in lv]), "item", reorder=False)
     if vocabulary is not None:
         nums = np.array([vocabulary.number(iid(case, x)) for x in items], dtype=np.int32)
         return ItemList(item_nums=nums, vocabulary=vocabulary, **fields)
@@ -422,6 +520,7 @@ def run_impl(case):
                 p.train(ds)
                 row[v] = [_num(p.item_scores_[k]) for k in inum]
                 row[v + "-call"] = _nums(p(_ilist(case, everything)).scores())
+                row[v + "-probe"] = _nums(p(_ilist(case, case["pop_items"], by_number=case.get("pop_by_number"), ds=ds)).scores())
             except TypeError as e:
                 row[v] = "EType"
                 row["msg"] = str(e)[:100]
@@ -478,8 +577,18 @@ def coq_term(case, obs):
     ei, eu = "item" in case["entities"], "user" in case["entities"]
     rs = clist(case["ratings"], lambda r: f"({cnat(r[0])}, {cnat(r[1])}, {cq(fparse(r[2]))})")
     cu = id_codes(case["ukind"], case["uids"] + case["unk_uids"])
-    ci = id_codes(case["ikind"], case["iids"] + case["unk_iids"])
+    ci = id_codes(case["ikind"], case["iids"] + case["unk_iids"] + case.get("extra_iids", []))
     c_item = lambda x: cz(ci[iid(case, x)])
+
+    def c_ilist(items, by_number):
+        """the list as the caller built it: by identifier, or by number against the dataset's vocabulary (the model's
+        numbers are the logical indexes) / a vocabulary of its own"""
+        lv = list_vocab(case, items, by_number)
+        if lv is None:
+            return f"(ByIds {clist(items, c_item)})"
+        if lv == "dataset":
+            return f"(ByNums iv {clist(items, cnat)})"
+        return f"(ByNums {clist(lv, c_item)} {clist(items, lambda x: cnat(lv.index(x)))})"
     parts = []
     if any(v is None for v in [obs["global"]] + (obs["item_biases"] or []) + (obs["user_biases"] or [])):
         return "false"
@@ -490,12 +599,13 @@ def coq_term(case, obs):
         if not qo["aligned"] or any(s is None for s in qo["scores"]):
             return "false"
         user = "None" if q["user"] is None else f"(Some {cz(cu[uid(case, q['user'])])})"
+        by_num = q.get("by_number", [None, None])
         if q["hist"] is None or not q["hist"]["rated"]:
             hist = "None"
         else:
-            hist = "(Some " + clist(q["hist"]["items"], lambda p: f"({c_item(p[0])}, {cq(fparse(p[1]))})") + ")"
-        qq = f"{{| iq_user := {user}; iq_hist := {hist} |}}"
-        parts.append(f"agree_qs {TOL} (bias_scores_ids m d uv iv {qq} {clist(q['items'], c_item)}) {c_qs(qo['scores'])}")
+            hist = (f"(Some ({c_ilist([x for x, _ in q['hist']['items']], by_num[1])}, "
+                    f"{clist(q['hist']['items'], lambda p: cq(fparse(p[1])))}))")
+        parts.append(f"agree_qs {TOL} (bias_scores_list m d uv iv {user} {hist} {c_ilist(q['items'], by_num[0])}) {c_qs(qo['scores'])}")
     log_items = clist(case["ratings"], lambda r: cnat(r[1]))
     everything = list(range(case["ni"])) + ["x0"]
     for v in VARIANTS:
@@ -504,7 +614,7 @@ def coq_term(case, obs):
             return "false"
         sc = clist(po["scores"], c_oq)
         parts.append(f"agree_pop_ids {TOL} iv {CVAR[v]} (all_counts {cnat(case['ni'])} {log_items}) {sc}")
-        parts.append(f"all2 (agree_opt {TOL}) (pop_call_ids iv {sc} {clist(case['pop_items'], c_item)}) {clist(po['call'], c_oq)}")
+        parts.append(f"all2 (agree_opt {TOL}) (pop_call_list iv {sc} {c_ilist(case['pop_items'], case.get('pop_by_number'))}) {clist(po['call'], c_oq)}")
         parts.append(f"all2 (agree_opt {TOL}) (pop_call_ids iv {sc} {clist(everything, c_item)}) {clist(po['all'], c_oq)}")
     log = clist(case["ratings"], lambda r: f"({cnat(r[1])}, {cq(_raw_time(case, r))})")
     rep = f"(TDate {cq(TICKS[case['unit']])})" if case["trep"] == "date" else "TNum"
@@ -524,6 +634,9 @@ def coq_term(case, obs):
             sc = clist(row[v], c_oq)
             parts.append(f"agree_pop_ids {TOL} iv {CVAR[v]} {counts} {sc}")
             parts.append(f"all2 (agree_opt {TOL}) (pop_call_ids iv {sc} {clist(everything, c_item)}) {clist(row[v + '-call'], c_oq)}")
+            if v + "-probe" in row:
+                parts.append(f"all2 (agree_opt {TOL}) (pop_call_list iv {sc} {c_ilist(case['pop_items'], case.get('pop_by_number'))}) "
+                             f"{clist(row[v + '-probe'], c_oq)}")
     body = " && ".join(f"({p})" for p in parts)
     return (f"(let d := {{| d_user := {cq(dv['user'])}; d_item := {cq(dv['item'])} |}} in "
             f"let uv : vocab := {clist(case['uids'], lambda x: cz(cu[x]))} in let iv : vocab := {clist(case['iids'], lambda x: cz(ci[x]))} in "
@@ -623,7 +736,9 @@ def oracle(case, obs):
     out = []
     g, bi, bu = doc_offsets(case)
     if not _close(obs["global"], g):
-        out.append(("global-mean", f"global offset {obs['global']} != mean rating {g}"))
+        vals = sorted({fparse(r[2]) for r in case["ratings"]})
+        out.append(("global-mean", f"global offset {obs['global']} != mean rating {g} of the {len(case['ratings'])} stored ratings "
+                                   f"(values {[str(v) for v in vals]}, {sum(1 for r in case['ratings'] if fparse(r[2]) == 0)} of them exactly 0)"))
     for name, got, want in (("item", obs["item_biases"], bi), ("user", obs["user_biases"], bu)):
         if (got is None) != (want is None):
             out.append((f"{name}-offsets-presence", f"{name} offsets present={got is not None}, requested={want is not None}"))
@@ -651,7 +766,11 @@ def oracle(case, obs):
             key = "score-history" if hist_used else "score-sum"
             who = "no user" if q["user"] is None else f"{'unknown' if q['user'] == 'unknown' else 'known'} user {uid(case, q['user'])!r}"
             out.append((key, f"scores {got} differ from global + item + user offsets {[str(w) for w in want]} (history used: {hist_used}; "
-                             f"query form {q.get('form', 'recquery')}, {who}, items {[iid(case, x) for x in q['items']]!r})"))
+                             f"query form {q.get('form', 'recquery')}, {who}, items {[iid(case, x) for x in q['items']]!r} "
+                             f"{vocab_label(case, q['items'], q.get('by_number', [None, None])[0])}"
+                             + (f"; history {[iid(case, x) for x, _ in q['hist']['items']]!r} "
+                                f"{vocab_label(case, [x for x, _ in q['hist']['items']], q.get('by_number', [None, None])[1])}" if hist_used else "")
+                             + ")"))
     counts = [sum(1 for r in case["ratings"] if r[1] == i) for i in range(case["ni"])]
     for v in VARIANTS:
         po = obs["pop"][v]
@@ -660,8 +779,9 @@ def oracle(case, obs):
             continue
         want_call = [None if isinstance(x, str) else po["scores"][x] for x in case["pop_items"]]
         if po["call"] != want_call:
-            out.append(("pop-call", f"{v}: scoring {[iid(case, x) for x in case['pop_items']]!r} gave {po['call']}, stored scores give {want_call} "
-                                    "(unknown items must be unscored)"))
+            out.append(("pop-call", f"{v}: scoring {[iid(case, x) for x in case['pop_items']]!r} "
+                                    f"({vocab_label(case, case['pop_items'], case.get('pop_by_number'))}) gave {po['call']}, "
+                                    f"stored scores give {want_call} (unknown items must be unscored)"))
         check_called(v, counts, po["all"], "pop-call", case, out)
     for c, row in zip(case["cutoffs"], obs["tb"]):
         cf = fparse(c)
@@ -675,6 +795,12 @@ def oracle(case, obs):
             check_pop(v, tcounts, row[v], f"time-bounded[{rep_label(case)}]", out)
             if not isinstance(row[v], str):
                 check_called(v, tcounts, row[v + "-call"], f"time-bounded[{rep_label(case)}]-call", case, out)
+                want_probe = [None if isinstance(x, str) else row[v][x] for x in case["pop_items"]]
+                if row.get(v + "-probe", want_probe) != want_probe:
+                    out.append((f"time-bounded[{rep_label(case)}]-probe",
+                                f"{v}, cutoff {c}: scoring {[iid(case, x) for x in case['pop_items']]!r} "
+                                f"({vocab_label(case, case['pop_items'], case.get('pop_by_number'))}) gave {row[v + '-probe']}, "
+                                f"stored scores give {want_probe} (unknown items must be unscored)"))
     seen, res = set(), []
     for k, w in out:
         if k not in seen:
@@ -692,6 +818,21 @@ def nontrivial(case, obs):
 
 def counters(case, obs):
     yield "style=" + case["style"]
+    yield "rating-scale=" + case.get("scale", "half-stars")
+    rv = [(r[0], r[1], fparse(r[2])) for r in case["ratings"]]
+    if any(v == 0 for _, _, v in rv):
+        yield "rating-value-zero-stored"
+    if any(v < 0 for _, _, v in rv):
+        yield "rating-value-negative"
+    if all(v == 0 for _, _, v in rv):
+        yield "ratings-all-zero"
+    for col, name, n in ((0, "user", case["nu"]), (1, "item", case["ni"])):
+        if any(all(r[2] == 0 for r in rv if r[col] == e) and any(r[col] == e for r in rv) for e in range(n)):
+            yield f"all-zero-{name}"
+    lv = list_vocab(case, case["pop_items"], case.get("pop_by_number"))
+    yield "pop-list=" + ("by-identifier" if lv is None else "dataset-vocabulary" if lv == "dataset" else
+                         "own-vocabulary:" + (case["pop_by_number"]["kind"] if isinstance(case["pop_by_number"], dict) else "superset")
+                         + (",same-length" if len(lv) == case["ni"] else ",other-length"))
     yield f"ids=user:{case['ukind']},item:{case['ikind']}"
     for name, kind, known, unknown in (("user", case["ukind"], case["uids"], case["unk_uids"]), ("item", case["ikind"], case["iids"], case["unk_iids"])):
         if FALSY[kind] in known:
@@ -737,8 +878,12 @@ def counters(case, obs):
                                  ("history", q.get("by_number", [None, None])[1], [x for x, _ in (q["hist"] or {"items": []})["items"]])):
             if which == "history" and q["hist"] is None:
                 continue
-            if flag == "foreign" or (flag == "dataset" and not any(isinstance(x, str) for x in lst)):
-                yield f"query-{which}-by-number={flag}"
+            lv = list_vocab(case, lst, flag)
+            if lv == "dataset":
+                yield f"query-{which}-by-number=dataset"
+            elif lv is not None:
+                yield (f"query-{which}-by-number=foreign:" + (flag["kind"] if isinstance(flag, dict) else "superset")
+                       + (",same-length" if len(lv) == case["ni"] else ",other-length"))
         if q["hist"] is None:
             yield "query-history=none"
         elif not q["hist"]["rated"]:
